@@ -23,15 +23,18 @@ struct Dgram {
     std::vector<int> cuts;               // fragment boundaries in bytes: 0 = c0 < c1 < ... < ck = |payload|
 };
 
-static Bytes ip_packet(const Dgram& d, int from, int to, bool mf, bool df = false) {
-    Bytes h(d.opts ? 24 : 20, 0);
-    h[0] = d.opts ? 0x46 : 0x45; h[1] = 0x10;
+// The FIRST fragment's header differs from the others' (TTL, TOS, and the option - not copied on fragmentation - is only in the first):
+// the reassembled datagram must carry the first fragment's header whichever fragment completes it.
+static Bytes ip_packet(const Dgram& d, int from, int to, bool mf, bool df = false, bool reserved = false) {
+    const bool first = from == 0, opt = d.opts && first;
+    Bytes h(opt ? 24 : 20, 0);
+    h[0] = opt ? 0x46 : 0x45; h[1] = first ? 0x10 : 0x00;
     uint16_t tot = (uint16_t)(h.size() + (to - from));
     h[2] = tot >> 8; h[3] = tot & 0xff; h[4] = d.id >> 8; h[5] = d.id & 0xff;
-    uint16_t fo = (uint16_t)((from / 8) | (mf ? 0x2000 : 0) | (df ? 0x4000 : 0));
-    h[6] = fo >> 8; h[7] = fo & 0xff; h[8] = 77; h[9] = d.proto;
+    uint16_t fo = (uint16_t)((from / 8) | (mf ? 0x2000 : 0) | (df ? 0x4000 : 0) | (reserved ? 0x8000 : 0));
+    h[6] = fo >> 8; h[7] = fo & 0xff; h[8] = first ? 77 : 61; h[9] = d.proto;
     for (int i = 0; i < 4; ++i) { h[12 + i] = d.src >> (24 - 8 * i); h[16 + i] = d.dst >> (24 - 8 * i); }
-    if (d.opts) { h[20] = 1; h[21] = 1; h[22] = 1; h[23] = 0; }
+    if (opt) { h[20] = 1; h[21] = 1; h[22] = 1; h[23] = 0; }
     uint16_t c = csum(h.data(), h.size());
     h[10] = c >> 8; h[11] = c & 0xff;
     h.insert(h.end(), d.payload.begin() + from, d.payload.begin() + to);
@@ -60,7 +63,7 @@ static Bytes upper_payload(uint8_t proto, uint32_t src, uint32_t dst, int size, 
 struct Ev { int kind; int d; int frag; };   // kind 0: fragment `frag` of datagram d; 1: unfragmented; 2: non-IP; 3: MF|DF single
 static std::string ev_str(const Ev& e) {
     if (e.kind == 0) return "d" + str(e.d) + "f" + str(e.frag);
-    return e.kind == 1 ? "unfrag" : e.kind == 2 ? "arp" : "mfdf";
+    return e.kind == 1 ? "unfrag" + (e.frag ? str(e.frag) : std::string()) : e.kind == 2 ? "arp" : "mfdf";
 }
 
 struct Cfg {
@@ -111,8 +114,10 @@ static std::string step(S& s, const Ev& e) {
         expect = complete ? 2 : 1;
         if (complete) s.m.s.erase(e.d);
     } else if (e.kind == 1) {
-        Dgram u = c.d[0]; u.id = 0x7777; u.payload = upper_payload(17, u.src, u.dst, 12, 3); u.proto = 17;
-        wire = ip_packet(u, 0, 12, false);
+        // an unfragmented packet (offset 0, MF clear) whatever its other flag bits are (DF, the reserved bit), also when it has the
+        // identification and addresses of a datagram that is being reassembled
+        Dgram u = c.d[0]; if (!(e.frag & 4)) u.id = 0x7777; u.payload = upper_payload(17, u.src, u.dst, 12, 3); u.proto = 17;
+        wire = ip_packet(u, 0, 12, false, (e.frag & 1) != 0, (e.frag & 2) != 0);
         expect = 0;
     } else if (e.kind == 3) {
         // a single packet with MF and DF both set and offset 0: it is a fragment of a datagram nobody else belongs to
@@ -265,7 +270,8 @@ static void run_cfg(const Cfg& c, int index, const std::string* rp = 0, std::str
     Explorer<S, Ev> ex;
     for (size_t d = 0; d < c.d.size(); ++d)
         for (size_t f = 0; f + 1 < c.d[d].cuts.size(); ++f) ex.alphabet.push_back(Ev{0, (int)d, (int)f});
-    ex.alphabet.push_back(Ev{1, 0, 0}); ex.alphabet.push_back(Ev{2, 0, 0}); ex.alphabet.push_back(Ev{3, 0, 0});
+    for (int fl : {0, 1, 2, 3, 4, 6}) ex.alphabet.push_back(Ev{1, 0, fl});
+    ex.alphabet.push_back(Ev{2, 0, 0}); ex.alphabet.push_back(Ev{3, 0, 0});
     ex.context = "tier=" + A.tier + " cfg=" + str(index);
     ex.op_str = ev_str;
     ex.init = []() { return S{IPv4Reassembler(), Model()}; };
